@@ -26,6 +26,13 @@ class Fault(object):
         self.kind = kind
 
 
+def _spin_reset():
+    # (late import: spin imports this module)
+    from . import spin
+    globals()["_spin_reset"] = spin.reset
+    spin.reset()
+
+
 # ---------------------------------------------------------------- fragmentation policies
 def frag_whole(avail, want, rng):
     return min(avail, want)
@@ -109,6 +116,7 @@ class Core(object):
         self.calls_in_op = 0
 
     def _enter(self, kind, detail=None):
+        _spin_reset()
         k = self.ncalls
         self.ncalls += 1
         self.calls_in_op += 1
